@@ -158,6 +158,11 @@ def rule_nonempty(ctx, M):
             def covers_all(src):
                 """src is an iterator chain over the entry-lists field"""
                 base, chain = L.iterator_chain(src)
+                # only order-changing / identity adaptors: anything that can drop a list (skip, take, filter, ..)
+                # leaves that player's list untested
+                names_ = [c_.rsplit("::", 1)[-1] for c_ in chain]
+                if any(n_ not in ("iter", "into_iter", "rev", "by_ref", "deref", "as_slice", "iter_mut") for n_ in names_):
+                    return False
                 return P.strip(base) == entries_field
 
             def subject_is_this(x):
